@@ -406,3 +406,502 @@ def c01_r9_clean_close(ctx):
         if st and fc:
             r = core.reach(f, cut_edges=e_false, cut_points={(st[0].bb, st[0].idx)})
             ctx.check(fc[0].bb not in r['term'], 'must-pass|%s|quick-repair-2pc' % f.path, 'with quick_repair set, two_phase_commit = true is stored before anything else happens', f, st[0].line)
+
+
+# ------------------------------------------------------------------------------------ C02.R1 / R2
+def c02_r1_register_atomic(ctx):
+    ctx.set_rule('C02.R1', 'reader registration is atomic with reading the last committed id')
+    f = ctx.fn(TT + '::register_read_transaction')
+    if f is None:
+        return
+    g = ctx.sites(f, TM + '::get_last_committed_transaction_id', exact=1)
+    e = ctx.sites(f, 'BTreeMap::entry', exact=1)
+    ctx.held(f, g + e, 'self.state')
+    locks = ctx.sites(f, 'Mutex::lock', exact=1)
+    ctx.order(f, g, e, 'id read before the registration')
+    for p in e:
+        ctx.flows(f, p, 1, from_call=TM + '::get_last_committed_transaction_id', what='the registered id is the id just read')
+    ctx.guarded(f, e, [ok(TM + '::get_last_committed_transaction_id')])
+    # returns that id
+    rets = [1]
+    # get_last_committed_transaction_id reads latest_slot under the TM.state lock
+    h = ctx.fn(TM + '::get_last_committed_transaction_id')
+    if h is not None:
+        ls = ctx.sites(h, 'InMemoryState::latest_slot', exact=1)
+        ctx.held(h, ls, 'self.state')
+    for nm in ('get_data_root', 'get_system_root'):
+        h = ctx.fn(TM + '::' + nm)
+        if h is not None:
+            ls = ctx.sites(h, 'InMemoryState::latest_slot', exact=1)
+            ctx.held(h, ls, 'self.state')
+    h = ctx.fn('InMemoryState::latest_slot')
+    if h is not None:
+        sec = ctx.sites(h, 'DatabaseHeader::secondary_slot', exact=1)
+        pri = ctx.sites(h, 'DatabaseHeader::primary_slot', exact=1)
+        ctx.guarded(h, sec, [Guard(place='self.read_from_secondary', vals={'true'})], 'secondary slot served only when read_from_secondary')
+        ctx.guarded(h, pri, [Guard(place='self.read_from_secondary', vals={'false'})], 'primary slot served otherwise')
+
+
+def c02_r2_register_before_root(ctx):
+    ctx.set_rule('C02.R2', 'a reader/savepoint registers before its root is read')
+    f = ctx.fn('<Database as ReadableDatabase>::begin_read')
+    if f is not None:
+        ar = ctx.sites(f, 'TransactionGuard::allocate_read', exact=1)
+        nw = ctx.sites(f, 'ReadTransaction::new', exact=1)
+        ctx.guarded(f, nw, [ok('TransactionGuard::allocate_read')], 'ReadTransaction::new only after the registration returned Ok')
+        ctx.no_direct(f, [TM + '::get_data_root', TM + '::get_system_root'], 'begin_read itself reads no root')
+    if ctx.cfg != 'N':
+        f = ctx.fn('<ReadOnlyDatabase as ReadableDatabase>::begin_read')
+        if f is not None:
+            rr = ctx.sites(f, TT + '::register_read_transaction', exact=1)
+            nw = ctx.sites(f, 'ReadTransaction::new', exact=1)
+            ctx.guarded(f, nw, [ok(TT + '::register_read_transaction')])
+            nr = ctx.sites(f, 'TransactionGuard::new_read', exact=1)
+            for p in nr:
+                ctx.flows(f, p, 0, from_call=TT + '::register_read_transaction', what='guard carries the registered id')
+    f = ctx.fn('TransactionGuard::allocate_read')
+    if f is not None:
+        rr = ctx.sites(f, TT + '::register_read_transaction', exact=1)
+        nr = ctx.sites(f, 'TransactionGuard::new_read', exact=1)
+        ctx.guarded(f, nr, [ok(TT + '::register_read_transaction')])
+        for p in nr:
+            ctx.flows(f, p, 0, from_call=TT + '::register_read_transaction', what='guard carries the registered id')
+    f = ctx.fn('ReadTransaction::new')
+    if f is not None:
+        gr = ctx.sites(f, TM + '::get_data_root', exact=1)
+        tt = ctx.sites(f, 'TableTree::new', exact=1)
+        for p in tt:
+            ctx.flows(f, p, 0, from_call=TM + '::get_data_root')
+            ctx.flows(f, p, 2, from_arg='guard', what='the table tree owns the transaction guard')
+    ctx.callers_eq('ReadTransaction::new', {'<Database as ReadableDatabase>::begin_read', '<ReadOnlyDatabase as ReadableDatabase>::begin_read'},
+                   allow_missing=({'<ReadOnlyDatabase as ReadableDatabase>::begin_read'} if ctx.cfg == 'N' else ()))
+    f = ctx.fn(WT + '::allocate_savepoint')
+    if f is not None:
+        rr = ctx.sites(f, TT + '::register_read_transaction', exact=1)
+        al = ctx.sites(f, TT + '::allocate_savepoint', exact=1)
+        ctx.guarded(f, al, [ok(TT + '::register_read_transaction')], 'savepoint id allocated only after the read registration returned Ok')
+        for p in al:
+            ctx.flows(f, p, 1, from_call=TT + '::register_read_transaction')
+    f = ctx.fn(WT + '::ephemeral_savepoint')
+    if f is not None:
+        al = ctx.sites(f, WT + '::allocate_savepoint', exact=1)
+        gr = ctx.sites(f, TM + '::get_data_root', exact=1)
+        ctx.guarded(f, gr, [ok(WT + '::allocate_savepoint')], 'savepoint root read only after the registration')
+        ne = ctx.sites(f, 'Savepoint::new_ephemeral', exact=1)
+        for p in ne:
+            ctx.flows(f, p, 4, from_call=TM + '::get_data_root')
+            ctx.flows(f, p, 3, from_call=WT + '::allocate_savepoint')
+            ctx.flows(f, p, 2, from_call=WT + '::allocate_savepoint')
+
+
+# ------------------------------------------------------------------------------------ C02.R3
+def c02_r3_free_horizon(ctx):
+    ctx.set_rule('C02.R3', 'free horizon derives from the oldest live reader')
+    f = ctx.fn(WT + '::durable_commit')
+    if f is not None:
+        pf = ctx.sites(f, WT + '::process_freed_pages', exact=1)
+        for p in pf:
+            ctx.flows(f, p, 1, from_call=TT + '::oldest_live_read_transaction')
+        ep = ctx.sites(f, WT + '::process_data_freed_pages_after_commit', exact=1)
+        for p in ep:
+            ctx.flows(f, p, 3, from_call=WT + '::flush_data_allocated_pages', what='savepoint horizon passed to the epilogue comes from the purge')
+    f = ctx.fn(WT + '::process_data_freed_pages_after_commit')
+    if f is not None:
+        ex = ctx.sites(f, WT + '::extract_freed_pages', exact=1)
+        for p in ex:
+            ctx.flows(f, p, 2, from_call=[TT + '::oldest_live_read_transaction', 'Ord::min'], from_arg='savepoint_horizon',
+                      what='epilogue free_until derives from the oldest live read clamped (min) by savepoint_horizon')
+    f = ctx.fn(WT + '::non_durable_commit')
+    if f is not None:
+        pf = ctx.sites(f, WT + '::process_freed_pages_nondurable', exact=1)
+        for p in pf:
+            ctx.flows(f, p, 1, from_call=TT + '::oldest_live_read_nondurable_transaction')
+    f = ctx.fn(WT + '::process_freed_pages')
+    if f is not None:
+        ex = ctx.sites(f, WT + '::extract_freed_pages', exact=2)
+        for p in ex:
+            ctx.flows(f, p, 2, from_arg='free_until')
+    f = ctx.fn(WT + '::extract_freed_pages')
+    if f is not None:
+        ei = ctx.sites(f, 'SystemTable::extract_from_if', exact=1)
+        for p in ei:
+            ctx.flows(f, p, 1, from_arg='free_until', what='only entries below free_until are extracted')
+    # the tracker's notion of oldest: first key of live_read_transactions, under the lock
+    f = ctx.fn(TT + '::oldest_live_read_transaction')
+    if f is not None:
+        k = ctx.sites(f, 'BTreeMap::keys', exact=1)
+        ctx.held(f, k, 'self.state')
+
+
+# ------------------------------------------------------------------------------------ C02.R4
+def c02_r4_who_frees(ctx):
+    ctx.set_rule('C02.R4', 'who may release a page, and under which guard')
+    ctx.callers_eq(TM + '::free', {PA + '::rollback_all', PA + '::free', PA + '::free_if_uncommitted'})
+    ctx.callers_eq(TM + '::free_helper', {TM + '::free', TM + '::free_if_unpersisted'})
+    ctx.callers_eq(PA + '::free', {
+        WT + '::restore_savepoint_inner', WT + '::durable_commit', WT + '::process_freed_pages',
+        WT + '::process_data_freed_pages_after_commit', WT + '::compact_pages',
+        'MutateHelper::insert_helper', 'MutateHelper::delete_leaf_at_position',
+    }, ignore=())
+    ctx.callers_eq(TM + '::free_if_unpersisted', {WT + '::non_durable_commit', WT + '::process_freed_pages_nondurable', WT + '::process_freed_pages_nondurable_helper'})
+    # a non-durable commit frees only unpersisted pages
+    ctx.no_reach([WT + '::non_durable_commit'], [PA + '::free', TM + '::free', PA + '::free_if_uncommitted', PA + '::conditional_free'],
+                 what='non-durable commit path never frees through the unconditional door') if False else None
+    for nm in (WT + '::non_durable_commit', WT + '::process_freed_pages_nondurable', WT + '::process_freed_pages_nondurable_helper'):
+        f = ctx.fn(nm)
+        if f is not None:
+            bad = f.family_calls_to([PA + '::free', TM + '::free'])
+            ctx.check(not bad, 'direct-free|%s' % f.path, 'no direct PageAllocator::free / TransactionalMemory::free in the non-durable commit path `%s`' % nm, f, bad[0].line if bad else f.line)
+    for nm in ('free_if_unpersisted', 'claim_unpersisted'):
+        f = ctx.fn(TM + '::' + nm)
+        if f is not None:
+            ctx.sites(f, 'UnpersistedState::claim', exact=1)
+    f = ctx.fn(TM + '::free_if_unpersisted')
+    if f is not None:
+        fh = ctx.sites(f, TM + '::free_helper', exact=1)
+        ctx.guarded(f, fh, [true_of('UnpersistedState::claim')], 'free only when the page was claimed from the unpersisted set')
+    f = ctx.fn(PA + '::free_if_uncommitted')
+    if f is not None:
+        fh = ctx.sites(f, TM + '::free', exact=1)
+        ctx.guarded(f, fh, [true_of('UncommittedPages::remove')], 'free only when the page was allocated by this transaction')
+    f = ctx.fn(PA + '::conditional_free')
+    if f is not None:
+        pu = ctx.sites(f, 'Vec::push', exact=1)
+        ctx.guarded(f, pu, [false_of(PA + '::free_if_uncommitted')], 'committed pages are queued, not freed')
+        ctx.must_pass(f, ctx.sites(f, PA + '::free_if_uncommitted', exact=1), exits='any')
+    # system pages are freed only after the durable commit succeeded
+    f = ctx.fn(WT + '::durable_commit')
+    if f is not None:
+        fr = ctx.sites(f, PA + '::free', exact=1)
+        ctx.guarded(f, fr, [ok(TM + '::commit')], 'system-tree pages freed only after TM::commit returned Ok')
+    f = ctx.fn(PA + '::rollback_all')
+    if f is not None:
+        tk = ctx.sites(f, PA + '::take_allocated_since_commit', exact=1)
+        fr = ctx.sites(f, TM + '::free', exact=1)
+        ctx.order(f, tk, fr)
+    f = ctx.fn(WT + '::restore_savepoint_inner')
+    if f is not None:
+        fr = ctx.sites(f, PA + '::free', exact=1)
+        rs = ctx.sites(f, 'PageTracker::reset', exact=1)
+        ctx.order(f, rs, fr, 'restore frees pages drained from this transaction\'s allocation tracker')
+    f = ctx.fn(WT + '::compact_pages')
+    if f is not None:
+        fr = ctx.sites(f, PA + '::free', exact=1)
+        for p in fr:
+            ctx.flows(f, p, 1, from_call=PA + '::allocate_lowest', what='compaction frees only the probe page it just allocated')
+
+
+# ------------------------------------------------------------------------------------ C02.R5
+def c02_r5_free_leaves_caches(ctx):
+    ctx.set_rule('C02.R5', 'a freed page leaves both caches; a buffered write drops the read-cache entry')
+    f = ctx.fn(TM + '::free_helper')
+    if f is not None:
+        inv = ctx.sites(f, PCF + '::invalidate_cache', exact=1)
+        can = ctx.sites(f, PCF + '::cancel_pending_write', exact=1)
+        ctx.must_pass(f, inv, exits='any', what='free_helper always invalidates the read cache entry')
+        ctx.must_pass(f, can, exits='any', what='free_helper always cancels the pending write')
+        fr = ctx.sites(f, 'BuddyAllocator::free', exact=1)
+        ctx.must_pass(f, fr, exits='any')
+        for p in inv + can:
+            ctx.flows(f, p, 1, from_call='PageNumber::address_range', from_arg='page')
+    f = ctx.fn(PCF + '::write')
+    if f is not None:
+        rm = ctx.sites(f, 'LRUCache::remove', exact=1)
+        ins = ctx.sites(f, 'LRUWriteCache::insert', exact=1)
+        tv = ctx.sites(f, 'LRUWriteCache::take_value', exact=2)
+        ctx.order(f, rm, ins + tv, 'read-cache entry removed before the page is buffered for writing')
+    f = ctx.fn(PCF + '::cancel_pending_write')
+    if f is not None:
+        ctx.sites(f, 'LRUWriteCache::remove', exact=1)
+    f = ctx.fn(PCF + '::invalidate_cache')
+    if f is not None:
+        ctx.sites(f, 'LRUCache::remove', exact=1)
+
+
+# ------------------------------------------------------------------------------------ C02.R7
+def c02_r7_pending_pins(ctx):
+    ctx.set_rule('C02.R7', 'pins of pending non-durable commits are released only by a successful durable commit')
+    ctx.callers_eq(TT + '::clear_pending_non_durable_commits', {WT + '::durable_commit'})
+    f = ctx.fn(WT + '::durable_commit')
+    if f is not None:
+        cl = ctx.sites(f, TT + '::clear_pending_non_durable_commits', exact=1)
+        ctx.guarded(f, cl, [ok(TM + '::commit')], 'pins cleared only after TM::commit returned Ok')
+    for nm in (WT + '::non_durable_commit', WT + '::process_data_freed_pages_after_commit'):
+        f = ctx.fn(nm)
+        if f is not None:
+            rg = ctx.sites(f, TT + '::register_non_durable_commit', exact=1)
+            ctx.guarded(f, rg, [ok(TM + '::non_durable_commit')], 'pin registered only after the non-durable commit was published')
+            cm = ctx.sites(f, TM + '::non_durable_commit', exact=1)
+            ctx.must_pass(f, rg, start=cm[0] if cm else None, what='every success path after TM::non_durable_commit registers the pin')
+    ctx.callers_eq(TT + '::register_non_durable_commit', {WT + '::non_durable_commit', WT + '::process_data_freed_pages_after_commit'})
+    f = ctx.fn(TT + '::register_non_durable_commit')
+    if f is not None:
+        e = ctx.sites(f, 'BTreeMap::entry', exact=1)
+        i = ctx.sites(f, 'BTreeMap::insert', exact=1)
+        ctx.held(f, e + i, 'self.state')
+        for p in e:
+            ctx.flows(f, p, 1, from_arg='durable_ancestor')
+    f = ctx.fn(WT + '::non_durable_commit')
+    if f is not None:
+        rg = ctx.sites(f, TT + '::register_non_durable_commit', exact=1)
+        for p in rg:
+            ctx.flows(f, p, 2, from_call=TM + '::get_last_durable_transaction_id', what='the pinned ancestor is the last durable transaction')
+
+
+# ------------------------------------------------------------------------------------ C02.R8
+def c02_r8_clean_reads(ctx):
+    ctx.set_rule('C02.R8', 'clean reads consult the write buffer after a non-durable commit')
+    f = ctx.fn(PCF + '::read')
+    if f is None:
+        return
+    rd = ctx.sites(f, PCF + '::read_direct_into_arc', exact=1)
+    # file read reachable only if: flag false, or hint != Clean, or the buffer lookup returned None
+    g = [Guard(place='self.committed_pages_buffered', vals={'false'}),
+         Guard(place='hint', vals={'None', 'Dirty'}),
+         Guard(call='LRUWriteCache::get', vals={'None'})]
+    hint_vars = None
+    for a in ctx.facts.adts.values():
+        if a['p'].endswith('page_store::base::PageHint'):
+            hint_vars = {v['n'] for v in a['variants']}
+    ctx.check(hint_vars is not None and 'Clean' in hint_vars, 'anchor|PageHint', 'PageHint enum with a Clean variant exists')
+    if hint_vars:
+        g[1] = Guard(place='hint', vals=hint_vars - {'Clean'})
+    ctx.guarded(f, rd, g, 'file read only if no committed page can be in the write buffer for this offset')
+    # read cache hit is fine; write buffer first for PageHint::None
+    f2 = ctx.fn(PCF + '::write_barrier')
+
+
+# ------------------------------------------------------------------------------------ C01.R5
+def constructors_of(facts, adt_suffix):
+    out = {}
+    for f in facts.fn_list:
+        for i, b in enumerate(f.blocks):
+            for j, st in enumerate(b['s']):
+                if st[0] == 'a' and st[2]['k'] == 'agg' and (st[2]['a'] == adt_suffix or st[2]['a'].endswith('::' + adt_suffix)):
+                    out.setdefault(facts.root_of(f).path, []).append((f, i, j, st[3]))
+    return out
+
+
+def constructors_eq(ctx, adt, expected):
+    got = constructors_of(ctx.facts, adt)
+    matched = set()
+    for path, sites in sorted(got.items()):
+        hit = [e for e in expected if core.name_matches(e, core.alt_names(path))]
+        ctx._ob(bool(hit), ctx.sample('constructor', sites[0][0], sites[0][3], '%s constructs %s' % (path, adt)))
+        if hit:
+            matched.update(hit)
+        else:
+            ctx.violate('new-constructor|%s|%s' % (adt, path), 'WHO-MAY-CONSTRUCT: `%s` constructs `%s` (confirmed constructors: %s)' % (path, adt, sorted(expected)), sites[0][0], sites[0][3])
+    for e in expected:
+        if e not in matched:
+            ctx._ob(False)
+            ctx.violate('lost-constructor|%s|%s' % (adt, e), 'WHO-MAY-CONSTRUCT: confirmed constructor `%s` of `%s` not found (floor)' % (e, adt))
+
+
+def self_guarding_mutators(ctx):
+    """functions that take a PageMut and cut every memory_mut call off from entry by an
+    `assert!(uncommitted(..))` / `if uncommitted(..)` true-edge."""
+    out = set()
+    for f in ctx.facts.fn_list:
+        if f.kind == 'closure':
+            continue
+        if not any('PageMut' in t for t in f.d.get('params', [])):
+            continue
+        mm = f.calls_to('PageMut::memory_mut')
+        if not mm:
+            continue
+        edges = core.guard_edges(f, [true_of(PA + '::uncommitted')])
+        if not edges:
+            continue
+        r = core.reach(f, cut_edges=edges)
+        if all(c.bb not in r['term'] for c in mm):
+            out.add(f.path)
+    return out
+
+
+def c01_r5_cow(ctx):
+    ctx.set_rule('C01.R5a', 'copy-on-write API shape: who constructs mutable page handles')
+    constructors_eq(ctx, 'PageMut', {TM + '::get_page_mut', TM + '::allocate_helper'})
+    constructors_eq(ctx, 'WritablePage', {PCF + '::write'})
+    constructors_eq(ctx, 'PageImpl', {TM + '::get_page', '<PageImpl as Clone>::clone'})
+    ctx.callers_eq(TM + '::get_page_mut', {PA + '::get_page_mut'})
+    ctx.callers_eq(TM + '::allocate_helper', {TM + '::allocate', TM + '::allocate_lowest'})
+    ctx.callers_eq(TM + '::allocate', {PA + '::allocate'})
+    ctx.callers_eq(TM + '::allocate_lowest', {PA + '::allocate', PA + '::allocate_lowest'})
+    # Arc::<[u8]>::get_mut: the only way to a &mut view of shared page bytes
+    got = {}
+    for f in ctx.facts.fn_list:
+        for c in f.calls:
+            if c.matches('Arc::get_mut') and (c.t.get('ga') or [''])[0] == '[u8]':
+                got.setdefault(ctx.facts.root_of(f).path, []).append(c)
+    exp = {'WritablePage::mem_mut', PCF + '::read_direct_into_arc'}
+    for p, cs in sorted(got.items()):
+        okk = any(core.name_matches(e, core.alt_names(p)) for e in exp)
+        ctx.check(okk, 'new-caller|Arc<[u8]>::get_mut|%s' % p, '`%s` obtains a mutable view of a shared page buffer (Arc::<[u8]>::get_mut); confirmed: %s' % (p, sorted(exp)), cs[0].fn, cs[0].line)
+    ctx.check(len(got) >= 2, 'floor|Arc<[u8]>::get_mut', 'both confirmed Arc::<[u8]>::get_mut sites exist')
+
+    ctx.set_rule('C01.R5b', 'every PageAllocator::get_page_mut is behind an uncommitted() true-edge (or a listed exception)')
+    sg = self_guarding_mutators(ctx)
+    ctx.check('tree_store::btree_mutator::MutateHelper::<\'a, \'b, K, V>::insert_inplace_helper' in sg or any('insert_inplace_helper' in x for x in sg),
+              'floor|self-guarding', 'insert_inplace_helper is recognised as self-guarding (asserts uncommitted before memory_mut)')
+    exceptions = {'UntypedBtreeMut::relocate_helper': 'target pages come from the compaction map: freshly allocated by compact_pages in the same transaction',
+                  'multimap_btree::relocate_subtrees': 'same as relocate_helper, for multimap subtrees'}
+    total = 0
+    seen_exc = set()
+    for path, sites in sorted(ctx.facts.callers_of(PA + '::get_page_mut', root=False).items()):
+        f = ctx.facts.fns[path]
+        exc = [e for e in exceptions if core.name_matches(e, f.names)]
+        edges = core.guard_edges(f, [true_of(PA + '::uncommitted')])
+        r = core.reach(f, cut_edges=edges) if edges else None
+        for c in sites:
+            total += 1
+            if exc:
+                seen_exc.add(exc[0])
+                ctx._ob(True, ctx.sample('exception', f, c.line, 'listed exception: ' + exceptions[exc[0]]))
+                continue
+            guarded = r is not None and c.bb not in r['term']
+            via = None
+            if not guarded:
+                # (ii) result handed directly to a self-guarding mutator
+                for c2 in f.calls:
+                    if c2.callee in sg:
+                        for a in c2.t['a']:
+                            if a[0] in ('c', 'm'):
+                                _l, cl, _a, _k = core.flow_sources(f, a)
+                                if c.bb in cl:
+                                    via = c2
+                if via is not None:
+                    # and not mutated here
+                    for m in f.calls_to('PageMut::memory_mut'):
+                        _l, cl, _a, _k = core.flow_sources(f, m.t['a'][0])
+                        if c.bb in cl:
+                            # mutated locally as well: only fine if that is itself guarded
+                            if r is None or m.bb in r['term']:
+                                via = None
+            okk = guarded or via is not None
+            if guarded:
+                # same-subject refinement (precision only)
+                S_ = core.sym(f)
+                tgt = S_.describe(S_.operand(c.t['a'][1]))
+                subj = set()
+                for (gb, si) in edges:
+                    for fa in core.edge_facts(f, gb)[si]:
+                        if fa.kind == 'call' and fa.call.matches(PA + '::uncommitted'):
+                            subj.add(S_.describe(S_.operand(fa.call.t['a'][1])))
+                if tgt not in subj:
+                    ctx.unmatched_subject += 1
+            ctx._ob(okk, ctx.sample('guard', f, c.line, 'get_page_mut %s' % ('behind uncommitted() true-edge' if guarded else ('handed to self-guarding %s' % (via.callee if via else '?')))))
+            if not okk:
+                path_ = core.path_lines(f, core.find_path(f, c.bb, cut_edges=edges))
+                ctx.violate('cow|%s|get_page_mut' % f.path,
+                            'copy-on-write: PageAllocator::get_page_mut reachable without an uncommitted() true-edge, not handed to a self-guarding mutator, and not a listed relocation site', f, c.line, path_)
+    ctx.check(total >= 14, 'floor|get_page_mut-sites', 'at least the 14 confirmed get_page_mut call sites were analysed (found %d)' % total)
+    for e in exceptions:
+        ctx.check(e in seen_exc, 'floor|exception|%s' % e, 'listed exception %s still exists' % e)
+
+    ctx.set_rule('C01.R5c', 'direct PageAllocator::free in btree code only for pages allocated by this transaction')
+    n = 0
+    for path, sites in sorted(ctx.facts.callers_of(PA + '::free', root=False).items()):
+        f = ctx.facts.fns[path]
+        if 'btree' not in f.file and 'multimap' not in f.file and 'table_tree' not in f.file:
+            continue
+        pts = [cpoint(c) for c in sites]
+        n += len(pts)
+        ctx.guarded(f, pts, [true_of(PA + '::uncommitted')], 'direct free only behind uncommitted() == true')
+    ctx.check(n >= 3, 'floor|btree-free-sites', 'the 3 confirmed direct free sites in btree code were analysed (found %d)' % n)
+
+    ctx.set_rule('C01.R5d', 'unsafe inventory: owners of unsafe blocks are the confirmed ones')
+    allowed = {
+        'PageList::from_bytes_mut': 'transmute of a byte slice to the in-place PageList view (values, not pages of other snapshots)',
+        'DynamicCollection::new': 'transmute &[u8] -> &DynamicCollection (repr(transparent))',
+        'UntypedDynamicCollection::new': 'transmute &[u8] -> &UntypedDynamicCollection (repr(transparent))',
+    }
+    for u in ctx.facts.unsafe_blocks:
+        o = u['owner']
+        if '::xxh3::' in o:
+            ctx._ob(True)
+            continue
+        okk = any(core.name_matches(a, core.alt_names(o)) for a in allowed)
+        ctx._ob(okk, {'rule': ctx.rule, 'cfg': ctx.cfg, 'kind': 'unsafe', 'what': 'unsafe block in %s (%s:%s)' % (o, u['f'], u['l'])})
+        if not okk:
+            ctx.violate('new-unsafe|%s' % o, 'new unsafe block in `%s` at %s:%s -- confirm it cannot alias committed page bytes mutably and add it to the table' % (o, u['f'], u['l']))
+    for f in ctx.facts.fn_list:
+        if f.d.get('unsafe') and '::xxh3::' not in f.path:
+            ctx.check(False, 'new-unsafe-fn|%s' % f.path, 'new unsafe fn `%s`' % f.path, f, f.line)
+
+
+# ------------------------------------------------------------------------------------ C02.R6
+GUARD_ADT = 'db::TransactionGuard'
+PAGE_HOLDERS = ('tree_store::page_store::base::PageImpl', 'tree_store::page_store::page_manager::PageResolver', 'tree_store::btree_cursor_range::BtreeCursorRange')
+
+
+def c02_r6_guard_ownership(ctx):
+    ctx.set_rule('C02.R6', 'everything that can read pages later owns the transaction guard, and drops its pages first')
+    facts = ctx.facts
+    memo_pages = {}
+    memo_guard = {}
+
+    def holds_pages(p):
+        return core.adt_contains(facts, p, lambda t: t in PAGE_HOLDERS, None, memo_pages) or p in PAGE_HOLDERS
+
+    def holds_guard(p):
+        return core.adt_contains(facts, p, lambda t: t == GUARD_ADT, None, memo_guard)
+
+    exceptions = {
+        'db::Database': 'the database handle itself; reads go through transactions',
+        'db::ReadOnlyDatabase': 'the database handle itself',
+        'transactions::WriteTransaction': 'owns the write guard (Arc<TransactionGuard>) -- listed for clarity',
+        'transactions::ReadTransaction': 'owns the guard through TableTree',
+        'db::Builder': 'no pages',
+    }
+    n = 0
+    for p, a in sorted(facts.adts.items()):
+        if not a.get('reach') or a['lt']:
+            continue
+        if not holds_pages(p):
+            continue
+        n += 1
+        okk = holds_guard(p) or p in exceptions
+        ctx._ob(okk, {'rule': ctx.rule, 'cfg': ctx.cfg, 'kind': 'type', 'what': 'public lifetime-free type %s holds pages and %s' % (p, 'owns the guard' if holds_guard(p) else 'is a listed exception')})
+        if not okk:
+            ctx.violate('guardless|%s' % p, 'public type `%s` has no lifetime parameter, transitively holds pages (PageImpl/PageResolver/BtreeCursorRange) but does not own an Arc<TransactionGuard>: it can read pages after its read transaction ended' % p)
+    ctx.check(n >= 8, 'floor|guard-owning-types', 'at least 8 public lifetime-free page-holding types were examined (found %d)' % n)
+    # (b) the named owned types contain the guard
+    named = ['table::ReadOnlyTable', 'multimap_table::ReadOnlyMultimapTable', 'table::Range', 'multimap_table::MultimapValue', 'multimap_table::MultimapRange']
+    for t in named:
+        a = facts.adts.get(t)
+        ctx.check(a is not None and holds_guard(t), 'guard-missing|%s' % t, 'type %s owns an Arc<TransactionGuard>' % t)
+    # (c) field order: page-holding fields are declared (dropped) before the guard field
+    for p, a in sorted(facts.adts.items()):
+        if a['k'] != 'struct':
+            continue
+        fields = a['variants'][0]['fields']
+        gidx = [i for i, f in enumerate(fields) if GUARD_ADT in f['adts'] and 'Arc' in f['ty']]
+        if not gidx:
+            continue
+        gi = gidx[0]
+        for i, f in enumerate(fields):
+            if i <= gi:
+                continue
+            hp = any((t in PAGE_HOLDERS) or (t in facts.adts and holds_pages(t)) for t in f['adts'])
+            if hp:
+                # a Drop impl that clears the pages first is the alternative
+                okk = a['drop']
+                ctx._ob(okk, {'rule': ctx.rule, 'cfg': ctx.cfg, 'kind': 'field-order', 'what': '%s.%s declared after the guard' % (p, f['n'])})
+                if not okk:
+                    ctx.violate('field-order|%s|%s' % (p, f['n']), 'field `%s` of `%s` holds pages but is declared after the transaction guard field `%s` (Rust drops fields in declaration order: the guard would be released before the pages)' % (f['n'], p, fields[gi]['n']))
+            else:
+                ctx._ob(True)
+    # (d) the guard's Drop deregisters
+    g = ctx.fn('<TransactionGuard as Drop>::drop')
+    if g is not None:
+        dr = ctx.sites(g, TT + '::deallocate_read_transaction', exact=1)
+        ew = ctx.sites(g, TT + '::end_write_transaction', exact=1)
+        ctx.guarded(g, dr, [Guard(place='self', vals={'Read'})], 'Read guards deregister the read')
+        e_other = core.guard_edges(g, [Guard(place='self', vals={'Write', 'Untracked'}), Guard(place='self', vals={'Write'}), Guard(place='self', vals={'Untracked'})])
+        ctx.must_pass(g, dr, exits='any', extra_cut_edges=e_other, what='dropping a Read guard always deregisters it')
+        e_other = core.guard_edges(g, [Guard(place='self', vals={'Read', 'Untracked'}), Guard(place='self', vals={'Read'}), Guard(place='self', vals={'Untracked'})])
+        ctx.must_pass(g, ew, exits='any', extra_cut_edges=e_other, what='dropping a Write guard always ends the write transaction')
+    f = ctx.fn(TT + '::deallocate_read_transaction')
+    if f is not None:
+        ctx.held(f, ctx.sites(f, 'BTreeMap::get_mut', exact=1), 'self.state')
